@@ -40,11 +40,59 @@ def rdRtObs : Rd RtObs := do
   let d ← Rd.opt rdDRes
   pure { enc := e, dec := d }
 
+/-- the decoded value with the resolution fields cleared when the resolution flag is clear -/
+def normD : DRes → DRes
+  | .ok n w => .ok n w.norm
+  | d => d
+
+/-- "yields an equal VLA … optional resolution and frame rate": where the flag says that no
+    resolution is carried, the width / height / frame-rate fields of a layer carry no information on
+    EITHER side, so both sides are compared after `VLA.norm` (`Pred.C19.rt` normalises the input
+    side only, i.e. demands that the decoder leaves zeros there). -/
+def normObs (o : RtObs) : RtObs := { o with dec := o.dec.map normD }
+
+def rtPredR (v r : VLA) (o : RtObs) : Bool := Rtp.Pred.C19.rt v r (normObs o)
+
+theorem clearRes_idem (l : Layer) : l.clearRes.clearRes = l.clearRes := rfl
+
+theorem norm_idem (v : VLA) : v.norm.norm = v.norm := by
+  unfold VLA.norm
+  by_cases h : v.hasRes = true
+  · simp [h]
+  · simp [h, List.map_map, Function.comp_def, clearRes_idem]
+
+theorem rtPredR_of_rt (v r : VLA) (o : RtObs) :
+    Rtp.Pred.C19.rt v r o = true → rtPredR v r o = true := by
+  intro h
+  unfold rtPredR normObs
+  unfold Rtp.Pred.C19.rt at h ⊢
+  split
+  · rename_i hw
+    simp only [hw, if_true, Bool.and_eq_true, beq_iff_eq] at h
+    simp only [Bool.and_eq_true, beq_iff_eq]
+    refine ⟨h.1, ?_⟩
+    rw [h.2]; simp [normD, norm_idem]
+  · rename_i hw
+    simp only [hw, if_false] at h
+    split
+    · rename_i hr
+      simp only [hr, if_true, Bool.and_eq_true] at h
+      simp only [Bool.and_eq_true]
+      refine ⟨h.1, ?_⟩
+      cases hd : o.dec <;> simp_all
+    · rename_i hr
+      simp only [hr, Bool.false_eq_true, if_false] at h
+      simp only [Bool.and_eq_true, bne_iff_ne, ne_eq] at h ⊢
+      refine ⟨h.1, ?_⟩
+      cases hd : o.dec with
+      | none => simp
+      | some d => cases d <;> simp_all [normD]
+
 /-- `c19.rt <vla> <receiver> => <MRes> <opt DRes>` -/
 def rt : Handler :=
   mkHandler (do let v ← rdVLA; let r ← rdVLA; pure (v, r)) rdRtObs
     (fun (v, r) => rtModel v r)
-    (fun (v, r) o => Rtp.Pred.C19.rt v r o)
+    (fun (v, r) o => rtPredR v r o)
     (fun (v, _) => decide v.WF)
     (fun (v, _) _ => if bigRate v then some "c19_bitrate_2p56" else none)
 
